@@ -55,7 +55,7 @@ CONTRACTS += [
             "readings-below-the-resume-point-untouched": FROZEN,
         },
         result_type="None",
-        props=["C01", "C02", "C14"],
+        props=["C01", "C02", "C07", "C14"],
         use_at_calls=False,
     ),
 ]
